@@ -1,5 +1,6 @@
 # Copyright (c) Microsoft Corporation. All rights reserved.
 # Licensed under the MIT License.
+import enum
 import sys
 import threading
 from typing import Any, Optional, Sequence, Tuple, Union
@@ -1419,6 +1420,12 @@ def _register_custom_property_hooks(converter: cattrs.Converter) -> cattrs.Conve
         }
         return cattrs.gen.make_dict_structure_fn(cls, converter, **attributes)  # type: ignore
 
+    def _enum_value(value: Any) -> Any:
+        # The value of a member - or the value itself where the caller gave an
+        # enumeration typed attribute the plain value (`severity=1`).
+        return value.value if isinstance(value, enum.Enum) else value
+
+    converter.register_unstructure_hook(enum.Enum, _enum_value)
     converter.register_unstructure_hook_factory(attrs.has, _with_custom_unstructure)
     converter.register_structure_hook_factory(attrs.has, _with_custom_structure)
     return converter
